@@ -9,6 +9,7 @@
 //! Exit codes: 0 = held on everything explored, 1 = violation (a line
 //! `VIOLATION property=<id> replay=<path>` was printed), 2 = inconclusive.
 
+pub mod sched;
 pub mod store;
 
 use proptest::strategy::{Strategy, ValueTree};
@@ -99,6 +100,7 @@ struct SubStats {
     labels: BTreeMap<String, u64>,
     counters: BTreeMap<String, u64>,
     samples: Vec<Value>,
+    first_case: Option<Value>,
     excluded_known: BTreeMap<String, u64>,
     exhaustive: Option<bool>,
     wall_s: f64,
@@ -516,6 +518,9 @@ impl Runner {
                             for s in &ctx.excluded {
                                 *l.excluded_known.entry(s.clone()).or_insert(0) += 1;
                             }
+                            if l.first_case.is_none() {
+                                l.first_case = serde_json::to_value(&case).ok().map(|v| truncate_sample(&v));
+                            }
                             if ctx.nontrivial {
                                 l.nontrivial_evals += 1;
                                 let key = ctx.distinct_key.unwrap_or_else(|| {
@@ -645,6 +650,9 @@ impl Runner {
                         for s in &ctx.excluded {
                             *l.excluded_known.entry(s.clone()).or_insert(0) += 1;
                         }
+                        if l.first_case.is_none() {
+                            l.first_case = serde_json::to_value(case).ok().map(|v| truncate_sample(&v));
+                        }
                         if ctx.nontrivial {
                             l.nontrivial_evals += 1;
                             let key = ctx.distinct_key.unwrap_or_else(|| {
@@ -723,6 +731,11 @@ impl Runner {
             for smp in &s.samples {
                 if samples.len() < 8 {
                     samples.push(json!({"sub": s.name, "case": smp}));
+                }
+            }
+            if s.samples.is_empty() {
+                if let Some(fc) = &s.first_case {
+                    samples.push(json!({"sub": s.name, "case": fc, "note": "first case of the sub-check (no non-trivial case was seen)"}));
                 }
             }
             rules.push(format!("[{}] {}", s.name, s.rule));
@@ -822,6 +835,9 @@ fn merge_stats(s: &mut SubStats, l: SubStats) {
         if s.samples.len() < 3 {
             s.samples.push(smp);
         }
+    }
+    if s.first_case.is_none() {
+        s.first_case = l.first_case;
     }
 }
 
